@@ -170,7 +170,11 @@ func (f *Func) assignIDs(validate bool) error {
 				got := n.ID()
 				return errors.Errorf("invalid local ID in function %q, expected %s, got %s", f.Ident(), enc.LocalID(want), enc.LocalID(got))
 			}
-			n.SetID(id)
+			if n.ID() != id {
+				// Write only on change: concurrent printers read the ID without
+				// holding the lock.
+				n.SetID(id)
+			}
 			id++
 		}
 		return nil
